@@ -24,6 +24,12 @@ package agreement
 //          seeds and array-form over-bound instances -> C41:above-bound-accepted
 //   ledger/msgp_gen.go  CatchpointSnapshotChunkV6.Balances check in the struct-from-array path
 //       -> first MISSED, DETECTED after the same strengthening (C41:above-bound)
+//   seeded C41-A (LogicSig.Args inner bound compared with the outer count) -> C41:above-bound-accepted
+//       (level-1 over-bound instance, both encodings)
+//   seeded C41-B (EvalDelta "itx" restarts the depth budget) -> first MISSED (the nested inputs lacked
+//       the required "txn", so an unrelated error satisfied the oracle); now the nests are valid
+//       transactions, <= 100 levels must be accepted, >= 256 must be refused
+//       -> C41:nesting-limit-not-enforced
 //   data/txHandler.go  decodeMsg: group slice growth removed -> C41:panic:data.decodeMsg
 //   data/txHandler.go  decodeMsg: group limit 2x -> C41:above-bound:data.decodeMsg (17 txns)
 
@@ -107,28 +113,43 @@ func c41agreementBounds() c41bounds {
 	}
 }
 
-// c41innerNest builds {"dt":{"itx":[ {"dt":{"itx":[ ... {} ... ]}} ]}} nested n times: the
-// recursive ApplyData/EvalDelta/InnerTxns path is the one place where a message controls the
-// decoder's recursion depth.
+// c41innerNest builds a VALID transaction whose inner transactions nest n levels deep:
+//
+//	{"dt":{"itx":[ {"dt":{"itx":[ ... {"txn":T} ... ]},"txn":T} ]},"txn":T}
+//
+// (every level carries the required "txn" with sender and type, so nothing but the depth limit
+// can make the decoder refuse it). The recursive ApplyData/EvalDelta/InnerTxns path is the one
+// place where a message controls the decoder's recursion depth.
 func c41innerNest(n int) []byte {
+	txn := []byte{0xa3, 't', 'x', 'n', 0x82, 0xa3, 's', 'n', 'd', 0xc4, 0x20}
+	for i := 0; i < 32; i++ {
+		txn = append(txn, byte(i+1))
+	}
+	txn = append(txn, 0xa4, 't', 'y', 'p', 'e', 0xa3, 'p', 'a', 'y')
 	var b bytes.Buffer
 	for i := 0; i < n; i++ {
-		b.Write([]byte{0x81, 0xa2, 'd', 't', 0x81, 0xa3, 'i', 't', 'x', 0x91})
+		b.Write([]byte{0x82, 0xa2, 'd', 't', 0x81, 0xa3, 'i', 't', 'x', 0x91})
 	}
-	b.WriteByte(0x80)
+	b.WriteByte(0x81)
+	b.Write(txn)
+	for i := 0; i < n; i++ {
+		b.Write(txn)
+	}
 	return b.Bytes()
 }
 
 func c41nests() map[string][]byte {
 	out := map[string][]byte{}
-	// every level costs at least one nested UnmarshalMsgWithState call, the budget is 255
-	// (protocol.maxMsgpDecodeDepth): 256 levels and more MUST be refused. (The largest input is
-	// kept at 50 000 levels so that even a decoder without any limit survives it: a stack
-	// overflow is fatal, not a verdict.)
-	for _, n := range []int{1, 8, 60, 120, 127, 128, 129, 250, 256, 300, 1000, 5000, 50000} {
+	// every level costs two nested UnmarshalMsgWithState calls (SignedTxnWithAD, EvalDelta) and the
+	// budget is 255 (protocol.maxMsgpDecodeDepth): up to 100 levels must be accepted, 256 levels
+	// and more MUST be refused. (The largest input is kept at 50 000 levels so that even a decoder
+	// without any limit survives it: a stack overflow is fatal, not a verdict.)
+	for _, n := range []int{1, 8, 60, 100, 120, 127, 128, 129, 250, 256, 300, 1000, 5000, 50000} {
 		label := "inner transactions nested " + itoa41(n) + " deep (map form)"
 		if n >= 256 {
 			label = "must-reject: " + label
+		} else if n <= 100 {
+			label = "expect-accept: " + label
 		}
 		out[label] = c41innerNest(n)
 	}
@@ -201,6 +222,9 @@ func TestVerif_C41_agreement(t *testing.T) {
 		{proto: new(stateproofmsg.Message)},
 	}
 	p.run(targets)
+	if p.sanity.Load() > 0 {
+		t.Fatalf("HARNESS: %d hand-made inputs that must be acceptable were rejected (see evidence notes) — not a verdict", p.sanity.Load())
+	}
 	r.Assume("allocbound values come from the constants named in the codec tags (exported ones referenced directly; the unexported crypto.maxMultisig=255, transactions.encodedMax*=32, protocol.txTypeMaxLen=7 are transcribed)")
 	r.Assume("UnmarshalMsg is invoked directly; protocol.DecodeMsgp's recover() is therefore never what keeps a panic from escaping")
 	n := r.Finish(ve.Coverage{
